@@ -85,5 +85,10 @@ CLAIMED = {
   note="Bounds: k = 2 (quick) / 3 (thorough) versions; annotations nil / no gate key / empty / 4 gate assignments; flow control none / max-in-flight(1..2) / token bucket; logging; one policy with a symbolic verb; optional server name. Not yet encoded: endpoints and disabled flags (transport construction), TLS key/cert material (H9), stale redelivery through the controller/work queue (H8), deletions. PEM parsing and work-queue timing are outside the technique.",
   technique="symbolic execution of go/ssa + SMT, history-independence (k versions vs fresh instance)",
   ref="9/C11"),
+ "C10": dict(
+  text="Bounded symbolic model checking of the real controller handler syncUpstreamCluster with the real manager, the real CreateClusterInfo / ClusterInfo.Sync / LoadServerNames and the real conflict checks: after every event of a create/update/delete history the manager's resolution agrees with an ownership table maintained from the specification (no name of another cluster removed or captured, deleted names stop resolving, case-insensitive).",
+  note="Bounds: 2 clusters, histories of <= 3 events, 0..2 server names per version from a 6-element alphabet with case variants and collisions with the cluster names (quick: <= 1 name in 3-event histories). The event choices are symbolic but range over a finite alphabet (the solver prunes; the data is effectively enumerated). Not yet encoded: TLS material selection by SNI (WrapGetConfigForClient), port stripping. Outside: admission plugin's conflict rejection, informer delivery, handshakes.",
+  technique="symbolic execution of go/ssa + SMT, history exploration against a reference ownership table",
+  ref="9/C10"),
 }
 NOT_APPLICABLE = {}
